@@ -145,6 +145,18 @@ CLAIMED = {
          'HRF convolution / pchip values, loadmat/json, pandas and the MNE object are not modelled: Meadows file loading, epochs '
          'mapping and design-matrix content are checked by the Python oracle; entity values are separator-free as in the BIDS grammar.',
          'DESIGN.md section 7, C20'),
+ 'C07': ('Coq proofs over R: the pooled RDM maximises the average cosine over ALL candidates (Cauchy-Schwarz) and attains the bound; '
+         'leave-one-out term <= full term (rotation lemma); scale invariance; rho-a linearity + in-Coq correspondence of pool_rdm, '
+         'boot_noise_ceiling and cv_noise_ceiling',
+         'Theorems: sum_i cos(c,x_i) = <c, sum_i x_i/|x_i|>/|c| for every candidate c; hence no candidate scores above the pooled RDM '
+         'and the pooled RDM attains sqrt<P,P>; adding the left-out normalised RDM to the pool of the others never lowers the cosine '
+         'with it (lower <= upper term by term for singleton groups); the RMS-normalised RDM and therefore pool_cosine are invariant '
+         'under positive rescaling of individual RDMs; the average rho-a is linear in the candidate\'s centred ranks (partial). '
+         'Correspondence: pool_rdm (cosine, corr, rank-based), boot_noise_ceiling over descriptor groups, cv_noise_ceiling over '
+         'sets_k_fold structures with common missing entries, evaluated in Coq (30-digit fixed-point Q).',
+         'rho-a optimality needs the rearrangement inequality (not proved: candidate search in the oracle); Pearson / whitened variants '
+         'are covered by correspondence (corr) or by ordering / invariance oracles (cov); the executable instance rounds to 30 digits.',
+         'DESIGN.md section 7, C07'),
 }
 NA_REASON = 'check not built yet in this round (work in progress; see DESIGN.md section 7)'
 
